@@ -3,7 +3,7 @@
 Tie: correspondence. The converter classes of `xml_types/dataconverters.py` and `isoduration.duration_string /
 parse_duration` are called directly and compared with the Lean model (`SdcModel/Scalars.lean` on the bit-exact
 binary64 model `SdcModel/Fp64.lean`); floats are compared bit by bit through `float.hex()`. The enum literal tables
-are regenerated into `Generated/ScalarsEnums.lean` by introspection on every run.
+are regenerated into `Generated/ScalarsEnums.lean` by introspection on every run. Date/time: `SdcModel/ScalarsDt.lean`.
 """
 from __future__ import annotations
 
@@ -21,8 +21,8 @@ import core
 READY = False
 MANIFEST = dict(
     technique='Lean 4 theorems over a bit-exact integer model of the binary64 operations (correctly rounded n/1000, x*1000, round-half-even) with a proved half-ulp error bound, and over transcribed string level models of the decimal / integer / boolean / enum / duration converters; correspondence with the real converters (floats via float.hex()), dense millisecond window exhaustively',
-    text='Properties/C18.lean proves: to_xml(to_py(n)) = n for EVERY millisecond count n < 2^53/1000 (no sampling: error analysis of the two roundings proved about the executable rnRat/rnMul), |to_py(to_xml(x)) - x| < 1 ms for every float 0 <= x <= 2^41 s, value preservation and absence of exponent notation for every Decimal with <= 18 digits and exponent in [-18, 18] (both directions, negative and zero included), the duration round trip for every integer microsecond count, and rejection of every string outside the lexical space of xsd:integer / xsd:decimal (after white space collapse) and of every non-literal for enums. For xsd:boolean the statement is refuted (to_py never rejects) - known finding.',
-    note='Model describes the code after fix commits 02af939, 4314acb, f03f008, 95e2f64. The float steps of parse_duration (float(str), modf, frac*1e6, round-half-even) are proved exact on the binary64 model for what duration_string writes. Trusted: CPython int/int true division, float*float, float(str), round(float) being the IEEE-754 correctly rounded operations (compared bit-exactly on every run, dense window 0..2e7 ms exhaustively in the thorough tier); decimal.Decimal constructor / format(d, "f") (transcribed, under correspondence); C implementation of datetime.timedelta(seconds=float) (transcribed from _datetimemodule.c accum/delta_new, under correspondence). Not modelled: DecimalConverter with USE_DECIMAL_TYPE=False and float py values (_float_to_xml), XsdDateInformation (oracle on the implementation only), subnormal / overflowing floats.',
+    text='Properties/C18.lean proves: to_xml(to_py(n)) = n for EVERY millisecond count n < 2^53/1000 (no sampling: error analysis of the two roundings proved about the executable rnRat/rnMul), |to_py(to_xml(x)) - x| < 1 ms for every float 0 <= x <= 2^41 s, value preservation and absence of exponent notation for every Decimal with <= 18 digits and exponent in [-18, 18] (both directions, negative and zero included), the duration round trip for every integer microsecond count up to timedelta.max (including the float steps of the parser), parse_date_time(str(info)) == info for every well-formed date/time information, and rejection of every string outside the lexical space of xsd:integer / xsd:decimal (after white space collapse), of the SDPi duration pattern, and of every non-literal for enums. For xsd:boolean the statement is refuted (to_py never rejects) - known finding.',
+    note='Model describes the code after fix commits 02af939, 4314acb, f03f008, 95e2f64. The float steps of parse_duration (float(str), modf, frac*1e6, round-half-even) are proved exact on the binary64 model for what duration_string writes. Trusted: CPython int/int true division, float*float, float(str), round(float) being the IEEE-754 correctly rounded operations (compared bit-exactly on every run, dense window 0..2e7 ms exhaustively in the thorough tier); decimal.Decimal constructor / format(d, "f") (transcribed, under correspondence); C implementation of datetime.timedelta(seconds=float) (transcribed from _datetimemodule.c accum/delta_new, under correspondence). The seconds of XsdDateInformation are decimal text in the model (float(text) is compared through the Fp64 model, format(Decimal(repr(x)), "f") is a trusted boundary step). Not modelled: DecimalConverter with USE_DECIMAL_TYPE=False and float py values (_float_to_xml), subnormal / overflowing floats; no rejection theorem for date/time strings (correspondence + oracle only).',
     ref='5 C18')
 DRIVERS = ['drv_c18']
 RULE = ('one case = one converter call (class, direction, input); distinct by input; non-trivial = the input is not a fixed '
@@ -32,7 +32,8 @@ TRUSTED = ['CPython binary64 arithmetic = IEEE-754 round-to-nearest-even (int/in
            'decimal.Decimal(str) and format(Decimal, "f") (transcribed from the General Decimal Arithmetic specification, under correspondence)',
            'datetime.timedelta(seconds=float) conversion (C accum/delta_new transcribed onto the Fp64 model, under correspondence)',
            're.fullmatch of the two lexical patterns (transcribed as recognisers, under correspondence incl. non-ASCII digits, signs, underscores, exponents)',
-           'repr(float) shortest round trip (only used by XsdDateInformation.__str__, which is checked by the oracle only)']
+           'repr(float) shortest round trip and Decimal(repr(x)) (XsdDateInformation.__str__): the model starts from the decimal text',
+           're module matching of __DATETIME_PATTERN__ / __SDPI_REGEX_DURATION__ (transcribed as recognisers with the same alternative priorities, under correspondence)']
 ASSUMPTIONS = ['floats stay in the normal binary64 range (no subnormal result, no overflow); timestamps are non-negative',
                'DecimalConverter.USE_DECIMAL_TYPE is True (library default) and py values handed to DecimalConverter.to_xml are Decimal or int']
 
@@ -560,41 +561,88 @@ def run_durations(ctx, dc, iso):
 
 
 # ---------------------------------------------------------------------------------------------------------------
-# date / time (implementation only: not modelled)
+# date / time
+def dt_dump(info) -> str:
+    """canonical dump of an XsdDateInformation, same format as Driver/C18.lean showDateInfo"""
+    def o(v):
+        return '-' if v is None else str(v)
+    if info.second is None:
+        t = '- - -'
+    else:
+        t = f'{info.hour} {info.minute} ' + '%d:%d:%d' % fp(float(info.second))
+    tz = '-'
+    if info.tz_info is not None:
+        tz = str(round(info.tz_info.utcoffset(None).total_seconds()) // 60)
+    return f'ok {info.year} {o(info.month)} {o(info.day)} {t} {int(info.end_of_day)} {tz}'
+
+
+def dt_fields(info) -> str:
+    """arguments of the driver op `dtstr`; the seconds as the decimal text format(Decimal(repr(x)), 'f') (trusted step)"""
+    def o(v):
+        return '-' if v is None else str(v)
+    ss, frac = '-', ''
+    if info.second is not None:
+        txt = format(Decimal(repr(info.second)), 'f')
+        ss, _, frac = txt.partition('.')
+    tz = '-'
+    if info.tz_info is not None:
+        tz = str(round(info.tz_info.utcoffset(None).total_seconds()) // 60)
+    return f'{info.year} {o(info.month)} {o(info.day)} {o(info.hour)} {o(info.minute)} {ss} {hx(frac)} {int(info.end_of_day)} {tz}'
+
+
+RE_DT = re.compile(r'-?([1-9][0-9]{3,}|0[0-9]{3})(-(0[1-9]|1[0-2])(-(0[1-9]|[12][0-9]|3[01])'
+                   r'(T(([01][0-9]|2[0-3]):[0-5][0-9]:[0-5][0-9](\.[0-9]+)?|24:00:00(\.0+)?))?)?)?'
+                   r'(Z|[+-]((0[0-9]|1[0-3]):[0-5][0-9]|14:00))?\Z')
+
+
 def run_datetime(ctx, iso):
     rng = ctx.subrng('dt')
+    b = Batch(ctx)
+    strs = []
     for i in range(ctx.n(5000, 50000)):
         y = rng.choice([rng.randrange(1, 9999), rng.randrange(-9999, 0), rng.randrange(10000, 200000), 0])
-        s = ('-' if y < 0 else '') + f'{abs(y):04d}'
+        s = ('-' if y < 0 or rng.random() < 0.02 else '') + f'{abs(y):04d}'
         lvl = rng.randrange(4)
-        sec_txt = None
         if lvl >= 1:
             s += f'-{rng.randrange(1, 13):02d}'
         if lvl >= 2:
-            s += f'-{rng.randrange(1, 29):02d}'
+            s += f'-{rng.randrange(1, 32):02d}'
         if lvl >= 3:
-            sec_txt = f'{rng.randrange(60):02d}' + rng.choice(['', '', '.' + ''.join(rng.choice('0123456789') for _ in range(rng.randrange(1, 7)))])
-            s += f'T{rng.randrange(24):02d}:{rng.randrange(60):02d}:{sec_txt}' if rng.random() < 0.95 else 'T24:00:00'
-        s += rng.choice(['', '', 'Z', f'{rng.choice("+-")}{rng.randrange(14):02d}:{rng.randrange(60):02d}', '+14:00'])
+            sec_txt = f'{rng.randrange(60):02d}' + rng.choice(['', '', '.' + ''.join(rng.choice('0123456789') for _ in range(rng.randrange(1, 7))), '.000', '.50'])
+            s += f'T{rng.randrange(24):02d}:{rng.randrange(60):02d}:{sec_txt}' if rng.random() < 0.9 else 'T24:00:00' + rng.choice(['', '.0', '.000'])
+        s += rng.choice(['', '', 'Z', f'{rng.choice("+-")}{rng.randrange(14):02d}:{rng.randrange(60):02d}', '+14:00', '-14:00', '-05:00', '+00:00', '-00:00'])
+        if rng.random() < 0.2:
+            s = _mutate(rng, s)
+        strs.append(s)
+    strs += ['2020', '2020-13', '2020-00', '2020-01-32', '2020-01-01T24:00:01', '2020-01-01T25:00:00', '2020-01-01T00:60:00', '2020-01-01T00:00:60',
+             '20', '02020', '2020-1-1', '2020-01-01T00:00:00+14:01', '2020-01-01T00:00:00+15:00', '2020-01-01 00:00:00', '２０２０', '2020-01-01T00:00:0٣',
+             '2020-01-01T00:00:00z', '', 'abc', '2020-05:00', '2020-13:00', '2020-05-05:00', '2020-12-14:00', '2020-12-15:00', '2020-05', '2020-05-05', '2020Z',
+             '2020-05Z', '2020\n', '2020\n\n', '-0000', '0000', '+2020', '2020-01-01T', '2020-01-01T00:00', '2020-01-01T00:00:00.', '2020-01-01T00:00:00.5.5',
+             '2020-01-01T24:00:00.05', '2020-01-01T24:00:00.0Z', '2020-01T00:00:00', '2020T00:00:00', '2020-01-01T00:00:00.0000001', '2020-01-01T00:00:09.999999',
+             '2020-01-01T23:59:59.999999-14:00', '99999999999999999999-12-31']
+    for s in strs:
         r = call(iso.parse_date_time, s)
+        b.add('dtpy ' + hx(s), dt_dump(r[1]) if r[0] == 'ok' else 'err ' + r[1], 'parse_date_time', {'s': s})
+        t = s.strip(XML_WS)
+        inside = bool(RE_DT.match(t))
+        ctx.count('dt:' + ('inside' if inside else 'outside') + ':' + r[0])
         ctx.case(('dt', s))
-        if r[0] != 'ok':
+        if not inside and r[0] == 'ok':
+            ctx.fail('datetime:lexical', f'parse_date_time({s!r}) -> {r[1]!r}', {'kind': 'dt-bad', 's': s})
+        if inside and s == t and r[0] != 'ok':
             ctx.fail('datetime:valid-rejected', f'parse_date_time({s!r}) raised {r[1]}', {'kind': 'dt', 's': s})
+        if r[0] != 'ok':
             continue
         out = str(r[1])
+        b.add('dtstr ' + dt_fields(r[1]), 'ok ' + out, 'XsdDateInformation.__str__', {'s': s})
         r2 = call(iso.parse_date_time, out)
         if r2[0] != 'ok' or r2[1] != r[1] or str(r2[1]) != out:
             ctx.fail('datetime:roundtrip', f'{s!r} -> {out!r} -> {r2[1]!r}', {'kind': 'dt', 's': s})
-        elif sec_txt is not None and 'T24' not in s and abs(fractions.Fraction(r[1].second) - fractions.Fraction(sec_txt)) >= fractions.Fraction(1, 10 ** 6):
-            ctx.fail('datetime:second-resolution', f'{s!r} -> second {r[1].second!r}', {'kind': 'dt', 's': s})
-    for s in ('2020', '2020-13', '2020-00', '2020-01-32', '2020-01-01T24:00:01', '2020-01-01T25:00:00', '2020-01-01T00:60:00', '2020-01-01T00:00:60',
-              '20', '02020', '2020-1-1', '2020-01-01T00:00:00+14:01', '2020-01-01T00:00:00+15:00', '2020-01-01 00:00:00', '２０２０', '2020-01-01T00:00:0٣',
-              '2020-01-01T00:00:00z', '', 'abc'):
-        r = call(iso.parse_date_time, s)
-        ok_expected = s == '2020'
-        ctx.case(('dt', s))
-        if (r[0] == 'ok') != ok_expected:
-            ctx.fail('datetime:lexical', f'parse_date_time({s!r}) -> {r}', {'kind': 'dt-bad', 's': s})
+        elif r[1].second is not None:
+            m = re.search(r'T[0-9]{2}:[0-9]{2}:([0-9]{2}(\.[0-9]+)?)', t)
+            if m and abs(fractions.Fraction(r[1].second) - fractions.Fraction(m.group(1))) >= fractions.Fraction(1, 10 ** 6):
+                ctx.fail('datetime:second-resolution', f'{s!r} -> second {r[1].second!r}', {'kind': 'dt', 's': s})
+    b.flush()
 
 
 # ---------------------------------------------------------------------------------------------------------------
